@@ -76,7 +76,7 @@ def run(ctx):
                 "implemented opcodes) are decoded; all 2^w values of 30 element enumerations are mapped; TLC judges all of it. "
                 "distinct = cases + bit strings + element values.")
     ctx.assumptions += [
-        "only fields the opcode's layout carries are compared; enumeration-typed fields take defined members; GPS coordinates are drawn from the decoder's grid (raw two's complement value x step)",
+        "only fields the opcode's layout carries are compared; enumeration-typed fields take defined members; GPS coordinates are drawn from the decoder's grid (raw two's complement value x step) where equality is asked; in-range coordinates between two grid points must serialise and come back as a neighbouring grid point",
         "for arbitrary bits the obligation is a documented error (ValueError, KeyError, NotImplementedError, AssertionError) or a fixed point of decode-then-encode",
         "an undefined element value may raise or map to a member, never to nothing; where the standard assigns undefined values to reserved / manufacturer-specific ranges (spec/Elements.tla, ten elements) the member must be the one of that range; the feature set id is exempt (unlisted manufacturer ids are folded onto the first listed manufacturer, asserted by the repository's tests)",
         "absolute bit offsets against the spec layouts are reported as model drift, the statement promises a round trip",
@@ -178,15 +178,44 @@ def run(ctx):
                 r["outcome"] = type(ex).__name__
             raws.append(r)
             ctx.count(core.digest([name, r["bits"]]))
+    # ---- in-range GPS coordinates between two grid points (the built value cannot survive exactly; it must serialise and come
+    # back as a neighbouring grid point), with the extremes of both fields
+    from okdmr.dmrlib.etsi.layer2.elements.feature_set_ids import FeatureSetIDs
+    from okdmr.dmrlib.etsi.layer2.elements.flcos import FLCOs
+    from okdmr.dmrlib.etsi.layer2.pdu.full_link_control import FullLinkControl
+    from okdmr.dmrlib.etsi.layer3.elements.position_error import PositionError
+    gps = []
+    for k in range(400 if ctx.quick else 20000):
+        which = k % 2                                  # 0 longitude (25 bit, 360 degrees), 1 latitude (24 bit, 180 degrees)
+        w, span = (25, 360.0) if which == 0 else (24, 180.0)
+        top = (1 << (w - 1)) - 1
+        raw = rng.choice([top, top - 1, -(1 << (w - 1)), -1, 0, rng.randrange(-(1 << (w - 1)), top + 1), rng.randrange(-(1 << (w - 1)), top + 1)])
+        quarter = rng.choice([1, 2, 3])
+        value = (raw + quarter / 4) * (span / 2 ** w)
+        if not -span / 2 <= value < span / 2:
+            continue
+        rec = {"w": w, "raw": raw, "quarter": quarter, "err": "", "n": 0, "total": 96, "dec": -(1 << 30)}
+        try:
+            o = FullLinkControl(protect_flag=0, flco=FLCOs.GPSInfo, fid=FeatureSetIDs.StandardizedFID, crc=bitarray([0] * 24),
+                                position_error=PositionError(0), longitude=value if which == 0 else 0.0, latitude=value if which == 1 else 0.0)
+            b = o.as_bits()
+            rec["n"] = len(b)
+            p_ = FullLinkControl.from_bits(b)
+            got = p_.longitude if which == 0 else p_.latitude
+            rec["dec"] = int(round(got / (span / 2 ** w)))
+        except Exception as ex:  # noqa
+            rec["err"] = type(ex).__name__
+        gps.append(rec)
+        ctx.count(core.digest(["gps", w, raw, quarter]))
     elems = elements()
     for e in elems:
         ctx.count(f"{e['enum']}:{e['v']}")
-    data = {"cases": cases, "raws": raws, "elems": elems}
+    data = {"cases": cases, "raws": raws, "elems": elems, "gps": gps}
     path2 = os.path.join(ctx.rundir, "c03_data.json")
     json.dump(data, open(path2, "w"))
     ctx.sample({"case": cases[len(cases) // 3], "element": elems[40]})
     res = core.run_tlc(ctx, "MC_PDUJudge", "MC_PDUJudge.cfg", env={"DATA_FILE": path2}, timeout=2400, jvm=("-Xss256m",))
-    want = len(cases) + len(raws) + len(elems)
+    want = len(cases) + len(raws) + len(elems) + len(gps)
     if not res.ok or res.distinct < want:
         raise core.MachineryError(f"TLC did not judge all items ({res.distinct} < {want})")
     ctx.traces_validated = want
@@ -200,6 +229,9 @@ def run(ctx):
         elif ph == "raw":
             key = f"pdu-raw/{raws[i]['family'].split('/')[0]}/{why}"
             item = raws[i]
+        elif ph == "gps":
+            key = f"pdu/FullLC96/GPSInfo/{why}"
+            item = gps[i]
         else:
             key = f"element/{elems[i]['enum']}/{why}"
             item = elems[i]
